@@ -8,6 +8,7 @@ CONSTANTS
   SpellNames = {}
   EmitTrees = FALSE
   Alpha = "B"
+  Contexts = {}
   MaxLen = 16
   TailLen = 0
   DeepReps = {}
